@@ -27,6 +27,9 @@ RS = {"engine": "rapidspace", "needs": ["hz", "enum", "rapidspace"], "level": "m
       "budget": {"quick": "240s", "thorough": "1800s"}}
 
 PROPS = {
+    "C19": {"engine": "coherence", "needs": ["hz", "enum", "coherence"], "level": "exploration", "reqdata": True,
+            "gen": {"quick": ["mx"], "thorough": ["mx", "mxall"]}},
+    "C12": {"engine": "genspace", "custom": "c12", "needs": [], "level": "exploration"},
     "C18": dict(RS),
     "C13": dict(GS13),
     "C05": dict(MS),
